@@ -56,7 +56,7 @@ def scopes(tier):
                 out.append(("two-T%d-U%d" % (t, u), dict(two, MaxSteps="8", Ts="{%d}" % t, Us="{%d}" % u)))
                 out.append(("deep-T%d-U%d" % (t, u), dict(deep, MaxSteps="11", Ts="{%d}" % t, Us="{%d}" % u)))
         for t in (1, 2, 3):
-            out.append(("rule-threshold-T%d" % t, dict(rthr, MaxSteps="10", Ts="{%d}" % t, T2s="{1, 2, 3}")))
+            out.append(("rule-threshold-T%d" % t, dict(rthr, MaxSteps="9", Ts="{%d}" % t, T2s="{1, 2, 3}")))
         out.append(("classes-exc", dict(cls, MaxSteps="6", Ts="{1, 2}", WithDisabled="TRUE", Modes='{"exc"}', T2s="{1}")))
         for t in (1, 2):
             out.append(("classes-rules-T%d" % t, dict(cls, MaxSteps="5", Ts="{%d}" % t, Modes='{"rules"}', T2s="{1, 2}")))
